@@ -2,13 +2,20 @@ package main
 
 import (
 	"bytes"
+	"crypto/sha1"
+	"encoding/hex"
 	"encoding/json"
 	"fmt"
+	"io"
+	"os"
 	"reflect"
 	"runtime"
 	"runtime/debug"
 	"sync"
 	"time"
+
+	"github.com/parsyl/parquet"
+	sch "github.com/parsyl/parquet/schema"
 )
 
 // ---- independent instances under a prescribed schedule (C13).
@@ -30,6 +37,9 @@ type schedSpec struct {
 	Schedule [][]int    `json:"schedule"` // segments [instance (1-based), n calls]
 	Prior    string     `json:"prior"`    // clean | dirty
 	Stress   int        `json:"stress"`   // >0: free-running parallel stress with that many goroutines per instance
+	// Baseline: per instance, the digests of its solo run in a SEPARATE fresh process (sink calls, or rows for a reader).
+	// Without it the solo run of this process is the reference.
+	Baseline [][]string `json:"baseline"`
 }
 
 type instResult struct {
@@ -111,6 +121,24 @@ func (s *callSink) Write(p []byte) (int, error) {
 	return len(p), nil
 }
 
+func digest(b []byte) string {
+	h := sha1.Sum(b)
+	return hex.EncodeToString(h[:8])
+}
+
+// digests of an instance's observable output: one per sink call (writer), or rows + error (reader)
+func digestsOf(is instSpec, r instResult) []string {
+	if is.Kind == "r" {
+		b, _ := json.Marshal(r.rows)
+		return []string{digest(b), "err:" + r.err, "panic:" + r.pan}
+	}
+	out := make([]string, 0, len(r.calls)+2)
+	for _, c := range r.calls {
+		out = append(out, digest(c))
+	}
+	return append(out, "err:"+r.err, "panic:"+r.pan)
+}
+
 func fileOf(r instResult) []byte {
 	var b []byte
 	for _, c := range r.calls {
@@ -136,7 +164,61 @@ func poolSelfTest() bool {
 	return ok
 }
 
+var foreignFirst bool
+
+type priorStats struct{}
+
+func (priorStats) NullCount() *int64     { return nil }
+func (priorStats) DistinctCount() *int64 { return nil }
+func (priorStats) Min() []byte           { return nil }
+func (priorStats) Max() []byte           { return nil }
+
+// otherSchemaPrior leaves behind, in the same process, writer state for a DIFFERENT table that has the same column
+// paths as this program's Rec but other physical types, repetition types and codec (built directly on the runtime's
+// public column API): anything the runtime caches per column name or per number of columns now holds foreign content.
+func otherSchemaPrior() {
+	otherType := func(t int) parquet.FieldFunc {
+		return func(se *sch.SchemaElement) {
+			x := sch.Type_INT32
+			if t == 1 {
+				x = sch.Type_DOUBLE
+			}
+			se.Type = &x
+		}
+	}
+	for variant := 0; variant < 2; variant++ {
+		var fields []parquet.Field
+		var paths [][]string
+		var types [][]int
+		for i, c := range cols {
+			if variant == 1 && i%2 == 1 {
+				continue // a table with fewer columns
+			}
+			ts := make([]int, len(c.Path))
+			for k := range ts {
+				ts[k] = 1
+			}
+			fields = append(fields, parquet.Field{Name: c.Path[len(c.Path)-1], Path: c.Path, Types: ts, Type: otherType(c.Type), RepetitionType: parquet.RepetitionOptional})
+			paths, types = append(paths, c.Path), append(types, ts)
+		}
+		if len(fields) == 0 {
+			continue
+		}
+		protect(func() {
+			meta := parquet.New(fields...)
+			for i := range fields {
+				f := parquet.NewOptionalField(paths[i], types[i], parquet.OptionalFieldGzip)
+				f.Defs = []uint8{uint8(len(types[i])), 0, uint8(len(types[i]))}
+				f.DoWrite(io.Discard, meta, []byte{1, 0, 0, 0, 2, 0, 0, 0}, 3, priorStats{})
+			}
+			meta.StartRowGroup(fields...)
+			meta.Footer(io.Discard)
+		})
+	}
+}
+
 func dirtyPools(insts []instSpec) {
+	otherSchemaPrior()
 	// leave large, distinctively filled buffers in both pools
 	for rep := 0; rep < 3; rep++ {
 		for _, is := range insts {
@@ -171,6 +253,10 @@ func runSched(c jobCase) {
 		return
 	}
 	n := len(ss.Insts)
+	if !foreignFirst && os.Getenv("VERIF_SCHED_PHASE") != "baseline" {
+		otherSchemaPrior()
+		foreignFirst = true
+	}
 	// files for reader instances: written (solo) from the instance's own ops
 	files := make([][]byte, n)
 	for i, is := range ss.Insts {
@@ -179,6 +265,21 @@ func runSched(c jobCase) {
 			w.Kind = "w"
 			files[i] = fileOf(runInst(w, nil, 0, nil))
 		}
+	}
+	if os.Getenv("VERIF_SCHED_PHASE") == "baseline" {
+		// reference process: every instance alone, nothing else has happened in this process but earlier solo runs
+		base := make([][]string, n)
+		for i, is := range ss.Insts {
+			base[i] = digestsOf(is, runInst(is, files[i], i+1, nil))
+		}
+		emit(event{"ev": "Baseline", "digests": base})
+		return
+	}
+	if !foreignFirst {
+		// the very first thing this process does with the runtime is a table of another shape under the same column
+		// names ("first one wins" caches), and it does it again before every dirty case ("last one wins" caches)
+		otherSchemaPrior()
+		foreignFirst = true
 	}
 	if ss.Prior == "dirty" {
 		dirtyPools(ss.Insts)
@@ -284,34 +385,25 @@ func runSched(c jobCase) {
 	diffs := []string{}
 	for i := range ss.Insts {
 		out[i] = []event{}
-		if ss.Insts[i].Kind == "r" {
-			a, _ := json.Marshal(results[i].rows)
-			b, _ := json.Marshal(solo[i].rows)
-			owner := i + 1
-			if !bytes.Equal(a, b) || results[i].err != solo[i].err || results[i].pan != solo[i].pan {
-				owner = 0
-				diffs = append(diffs, fmt.Sprintf("reader %d: rows/err differ from solo run (err %q / %q)", i+1, results[i].err, solo[i].err))
-			}
-			out[i] = append(out[i], event{"owner": owner, "epoch": 1})
-			continue
+		got := digestsOf(ss.Insts[i], results[i])
+		want := digestsOf(ss.Insts[i], solo[i])
+		ref := "the solo run in this process"
+		if i < len(ss.Baseline) && len(ss.Baseline[i]) > 0 {
+			want, ref = ss.Baseline[i], "the solo run in a fresh process"
 		}
-		m := len(results[i].calls)
-		if len(solo[i].calls) > m {
-			m = len(solo[i].calls)
+		m := len(got)
+		if len(want) > m {
+			m = len(want)
 		}
 		for k := 0; k < m; k++ {
 			owner := i + 1
-			if k >= len(results[i].calls) || k >= len(solo[i].calls) || !bytes.Equal(results[i].calls[k], solo[i].calls[k]) {
+			if k >= len(got) || k >= len(want) || got[k] != want[k] {
 				owner = 0
 				if len(diffs) < 5 {
-					diffs = append(diffs, fmt.Sprintf("writer %d: sink call %d differs from the solo run", i+1, k+1))
+					diffs = append(diffs, fmt.Sprintf("instance %d (%s): output element %d differs from %s", i+1, ss.Insts[i].Kind, k+1, ref))
 				}
 			}
 			out[i] = append(out[i], event{"owner": owner, "epoch": k + 1})
-		}
-		if results[i].err != solo[i].err || results[i].pan != solo[i].pan {
-			out[i] = append(out[i], event{"owner": 0, "epoch": m + 1})
-			diffs = append(diffs, fmt.Sprintf("writer %d: error/panic differs from solo run (%q/%q vs %q/%q)", i+1, results[i].err, results[i].pan, solo[i].err, solo[i].pan))
 		}
 	}
 	kinds := []string{}
